@@ -35,6 +35,10 @@ Programs == <<
   <<"sub", "fn", "(", "STRING", "var.p", ",", "INTEGER", "var.q", ")", "BOOL", "{", "return", "var.p", "==", "\"x\"", ";", "}">>,
   <<"sub", "e", "{", "set", "req.http.X", "=", "if", "(", "req.http.A", ",", "\"y\"", ",", "\"n\"", ")", "{\"long\"}", "regsub", "(", "req.url", ",", "{R\"a\"R}", ",", "\"\"", ")", ";", "set", "var.i", "=", "0x1F", ";", "set", "var.f", "=", "1e3", ";", "}">>,
   <<"#", "lead", "\n", "sub", "c", "{", "//", "c1", "\n", "esi", ";", "/*", "c2", "*/", "}", "pragma", "optional_param", "geoip_opt_in", "true", ";", "C!", "W!">>
+,
+  \* every list production with no element: explicit empty parameter lists, empty bodies, empty argument lists
+  <<"sub", "f", "(", ")", "{", "}", "sub", "g", "(", ")", "STRING", "{", "return", "\"x\"", ";", "}", "sub", "h", "(", "STRING", "var.a", ")", "{", "}", "acl", "e", "{", "}", "table", "e", "{", "}", "backend", "e", "{", "}", "director", "e", "random", "{", "}">>,
+  <<"sub", "vcl_recv", "{", "if", "(", "a", ")", "{", "}", "else", "{", "}", "f", "(", ")", ";", "call", "f", "(", ")", ";", "{", "}", "switch", "(", "a", ")", "{", "case", "\"a\"", ":", "break", ";", "case", "~", "\"a\"", ":", "break", ";", "default", ":", "break", ";", "}", "}", "backend", "b", "{", ".probe", "=", "{", "}", "}", "director", "d", "random", "{", "{", "}", "}">>
 >>
 
 Repl == <<"{", "}", "(", ")", ";", ",", ":", ".", "=", "==", "!", "~", "+", "-", "/", "%", "&&", "||", "|", "&", "*",
